@@ -11,6 +11,7 @@ import (
 	"net"
 	"time"
 
+	snPkts "github.com/energomonitor/bisquitt/packets"
 	"github.com/energomonitor/bisquitt/topics"
 	"github.com/energomonitor/bisquitt/util"
 )
@@ -44,18 +45,31 @@ func VerifNewShared(c VerifSessionConfig) *VerifShared {
 	}}
 }
 
+// VerifSessionOpts scales the session's topic-ID space so that exhaustion is
+// reachable in a test: the logic is untouched, only where the sequence starts
+// and ends.
+type VerifSessionOpts struct {
+	// SkipTopicIDs advances the session's own topic-ID sequence that many
+	// times before the session starts: skipped IDs are simply never handed out.
+	SkipTopicIDs int
+	// MaxTopicID, if non-zero, replaces the upper end of the topic-ID range
+	// (packets.MaxTopicAlias) for this session.
+	MaxTopicID uint16
+}
+
 // VerifRunSession runs one gateway session (handler) on snConn until it ends.
 // If mqttConn is non-nil it is used instead of dialing the broker.
-// skipTopicIDs advances the session's own topic-ID sequence that many times
-// before the session starts: skipped IDs are simply never handed out.
 func VerifRunSession(ctx context.Context, shared *VerifShared,
 	predefined topics.PredefinedTopics, logger util.Logger,
-	snConn net.Conn, mqttConn net.Conn, skipTopicIDs int) {
+	snConn net.Conn, mqttConn net.Conn, opts VerifSessionOpts) {
 	h := newHandler(shared.cfg, predefined, logger)
 	if mqttConn != nil {
 		h.mockupDialFunc = func() net.Conn { return mqttConn }
 	}
-	for i := 0; i < skipTopicIDs; i++ {
+	if opts.MaxTopicID != 0 {
+		h.topicID = util.NewIDSequence(snPkts.MinTopicAlias, opts.MaxTopicID)
+	}
+	for i := 0; i < opts.SkipTopicIDs; i++ {
 		h.topicID.Next()
 	}
 	h.run(ctx, snConn)
